@@ -22,6 +22,7 @@ import (
 	"Havoc/pkg/logr"
 	"Havoc/pkg/socks"
 	"Havoc/pkg/utils"
+	"Havoc/pkg/verifhook"
 	"Havoc/pkg/win32"
 
 	"github.com/olekukonko/tablewriter"
@@ -5905,6 +5906,7 @@ func (a *Agent) TaskDispatch(RequestID uint32, CommandID uint32, Parser *parser.
 										for {
 
 											Data, err := a.PortFwdRead(SocktID)
+											verifhook.PointN("portfwd.read", SocktID)
 											if err == nil {
 
 												/* only send the data if there is something... */
